@@ -262,6 +262,35 @@ def Val.sizeL : List Val → Nat
   | v :: vs => v.size + Val.sizeL vs
 end
 
+mutual
+/-- length of the `.type` chain that starts at a value: the bound of the `while ... : x = x.type`
+loops of the parser (unlike `size` it does not walk the whole tree, which may share subtrees) -/
+def Val.tlen : Val → Nat
+  | .node c _ fs => 1 + Val.tlenAt ((Val.fieldIdx c "type").getD fs.length) fs
+  | _ => 1
+def Val.tlenAt : Nat → List Val → Nat
+  | _, [] => 0
+  | 0, v :: _ => v.tlen
+  | i+1, _ :: r => Val.tlenAt i r
+end
+
+theorem Val.tlenAt_get : ∀ (i : Nat) (fs : List Val) (t : Val), fs[i]? = some t → Val.tlenAt i fs = t.tlen
+  | _, [], _, h => by simp at h
+  | 0, v :: _, t, h => by simp at h; subst h; simp [Val.tlenAt]
+  | i+1, _ :: r, t, h => by simp at h; simp [Val.tlenAt, Val.tlenAt_get i r t h]
+
+/-- one step down the `.type` chain shortens it -/
+theorem Val.tlen_getType (v t : Val) (h : v.getAttr "type" = some t) : t.tlen < v.tlen := by
+  cases v with
+  | node c co fs =>
+    simp only [Val.getAttr] at h
+    cases hi : Val.fieldIdx c "type" with
+    | none => simp [hi] at h
+    | some i =>
+      simp only [hi, Option.bind_some] at h
+      simp [Val.tlen, hi, Val.tlenAt_get i fs t h]
+  | _ => simp [Val.getAttr] at h
+
 /-! ## canonical dump (the observation compared with the real AST) -/
 
 def quoteStr (s : String) : String :=
